@@ -177,8 +177,14 @@ func c12ToInt(c *Ctx) {
 			okR = val != nil && val.Cmp(three40) == 0 && three40.Cmp(two64) < 0 && three41.Cmp(two64) >= 0
 		}
 	}
-	tpu, _ := pk.Members["tritsPerUint64"].(*ssa.NamedConst)
-	r.Check(okR && w == 1 && tpu != nil && tpu.Value.Int64() == 40, "C12.toInt.radix", c.P.Pos(g.Pos()), "uint64Radix = 3^40 = %s (3^40 < 2^64 <= 3^41), single writer; tritsPerUint64 = 40", three40)
+	_ = pk
+	if g == nil {
+		// renamed or turned into a constant: the value 3^40 is then part of the folded term C12.toInt.structure matches
+		// (ana.ConstGlobal folds only variables with a single writer, the initialiser)
+		r.Check(three40.Cmp(two64) < 0 && three41.Cmp(two64) >= 0 && three40.String() == "12157665459056928801", "C12.toInt.radix", "", "radix 3^40 = %s (3^40 < 2^64 <= 3^41) is decided as a constant of C12.toInt.structure", three40)
+	} else {
+		r.Check(okR && w == 1, "C12.toInt.radix", c.P.Pos(g.Pos()), "uint64Radix = 3^40 = %s (3^40 < 2^64 <= 3^41), single writer (chunks of 40 trits are decided by C12.toInt.structure)", three40)
+	}
 	// structure
 	hdr := "obj(alloc<math/big.Int>, call<(*math/big.Int).SetUint64>(self, bin<+>(bin<+>(call<*>(load(iaddr(p0, 240))), bin<*>(call<*>(load(iaddr(p0, 241))), 3)), bin<*>(call<*>(load(iaddr(p0, 242))), 9))), ...)"
 	chunk := "slice(p0, bin<+>(bin<*>(ind<-1>(0), 40), 200), bin<+>(bin<*>(ind<-1>(0), 40), 240))" // canonical form of t[i*40 : i*40+40] for i = 5..0
@@ -194,7 +200,7 @@ func c12ToInt(c *Ctx) {
 		}
 		t := b.Of(e.Results[0], e.Instr)
 		_, okH := ana.Match(hdr, t)
-		mul, _ := ana.Find("maybe(call<(*math/big.Int).Mul>(self, self, load(global<"+v2Pkg+"uint64Radix>)))", t)
+		mul, _ := ana.Find("maybe(call<(*math/big.Int).Mul>(self, self, obj(alloc<math/big.Int>, call<(*math/big.Int).SetUint64>(self, 12157665459056928801))))", t)
 		add, _ := ana.Find("maybe(call<(*math/big.Int).Add>(self, self, obj(alloc<math/big.Int>, call<(*math/big.Int).SetUint64>(self, phi(bin<+>("+horner+", 1), "+horner+")), ...)))", t)
 		if add == nil {
 			add, _ = ana.Find("maybe(call<(*math/big.Int).Add>(self, self, obj(alloc<math/big.Int>, maybe(call<(*math/big.Int).SetUint64>(self, phi(bin<+>("+horner+", 1), "+horner+"))))))", t)
@@ -246,8 +252,11 @@ func c12Thresholds(c *Ctx) {
 		}
 	}
 	r.Check(okM && w == 1, "C12.thresholds.max-hash", c.P.Pos(g.Pos()), "maxHash = 3^243 (parsed base 16 from the constant), single writer")
-	one, w1, _ := c.globalInit("pkg/pow/v2", "one")
-	r.Check(one != nil && w1 == 1 && matches("call<math/big.NewInt>(1)", one), "C12.thresholds.one", "", "one = 1, single writer")
+	if one, w1, g1 := c.globalInit("pkg/pow/v2", "one"); g1 != nil {
+		r.Check(one != nil && w1 == 1 && matches("call<math/big.NewInt>(1)", one), "C12.thresholds.one", "", "one = 1, single writer")
+	} else {
+		r.OK("C12.thresholds.one", "", "the constant 1 of the target hash is decided as part of C12.thresholds.target-hash (folded value)")
+	}
 
 	if f := c.fn("pkg/pow/v2", "targetHash"); f != nil {
 		b := ana.NewBuilder(c.P, f.Function)
@@ -256,7 +265,7 @@ func c12Thresholds(c *Ctx) {
 				continue
 			}
 			t := b.Of(e.Results[0], e.Instr)
-			want := "obj(alloc<math/big.Int>, call<(*math/big.Int).SetUint64>(self, p1), call<(*math/big.Int).Mul>(self, self, call<math/big.NewInt>(conv<int64>(bin<+>(len(p0), 8)))), call<(*math/big.Int).Add>(self, self, load(global<" + v2Pkg + "one>)), call<(*math/big.Int).Quo>(self, load(global<" + v2Pkg + "maxHash>), self))"
+			want := "obj(alloc<math/big.Int>, call<(*math/big.Int).SetUint64>(self, p1), call<(*math/big.Int).Mul>(self, self, call<math/big.NewInt>(conv<int64>(bin<+>(len(p0), 8)))), call<(*math/big.Int).Add>(self, self, call<math/big.NewInt>(1)), call<(*math/big.Int).Quo>(self, load(global<" + v2Pkg + "maxHash>), self))"
 			_, ok := ana.Match(want, t)
 			r.Check(ok, "C12.thresholds.target-hash", c.ipos(e.Instr), "target = Quo(3^243, t·(len+8) + 1) %s", ana.Explain(want, t))
 		}
